@@ -78,6 +78,26 @@ CHECKS = {
    note="Trusted: Coq kernel; extraction; glue; generator renders one hierarchy twice. 'Most specific' is read as least total conversion cost "
         "(exact 0, int->long 1, inheritance distance, null 3), ties ambiguous. Simultaneous release of several destructor-bearing objects is unspecified and skipped.",
    technique="Coq proof (list/chain induction) + extraction-based differential testing of generated class hierarchies"),
+ "C09": dict(
+   level=("proof", "Coq theorems (axiom-free) on the lexically scoped reference interpreter: name lookup reads the running body's frame, then the enclosing "
+          "object, then the enclosing class's statics, and is unaffected by whatever callers are suspended; an assignment never changes a suspended "
+          "caller's environment (it goes to a local, else to a field or static); a call hands the caller's environment and class context back untouched; "
+          "an injective renaming of a frame commutes with lookup/update/declare and preserves the referenced-object set. The interpreter-wide "
+          "alpha-renaming statement is not yet a theorem (partial): the property is decided on the implementation by (1) differential execution against "
+          "the interpreter on programs whose locals, parameters and fields share one name pool and (2) renaming 1-3 locals/parameters of one function, "
+          "method or constructor to fresh and to colliding names and requiring identical output.", "DESIGN.md §6 C09"),
+   note="Trusted: Coq kernel; extraction; glue; the Python renamer (capture-free by construction: the new name is unused in the body).",
+   technique="Coq proof (frame-level scoping invariants) + extraction-based differential testing + metamorphic alpha-renaming on the implementation"),
+ "C10": dict(
+   level=("proof", "Coq theorems on the reference interpreter: lookup by name in a duplicate-free declaration list is invariant under permutation "
+          "(axiom-free); hence evaluation from any state, and every whole run, is identical for any permutation of the functions and - for class tables "
+          "whose static fields need no initialisation order - any permutation of classes and functions, including a derived class before its base and a "
+          "function after its first use (uses functional extensionality). The implementation is checked against the property directly: every generated "
+          "program (class chains up to depth 4, helper functions, forward calls with arguments) is run in its generated, reversed, rotated and random "
+          "orders and acceptance, diagnostic category and output must coincide; it is also compared with the interpreter.", "DESIGN.md §6 C10"),
+   note="Trusted: Coq kernel + functional_extensionality_dep; extraction; glue. Static initialisers run in class order in the model; the generator keeps "
+        "them order-insensitive (literals).",
+   technique="Coq proof (permutation invariance of name lookup) + metamorphic permutation testing on the implementation + differential testing"),
  "C12": dict(
    level=("proof", "Coq theorems (axiom-free) on the reference interpreter: int arithmetic of any two in-range operands yields an in-range int; long "
           "arithmetic yields an in-range long or is flagged as outside the documentation; x % -1 = 0 for every x including the most negative long; "
